@@ -76,6 +76,10 @@ def points(tier: str) -> List[Dict[str, Any]]:
             for timeout in (300, 3000):
                 pts.append({"cache": {k: "absent" for k in KINDS}, "timeout": timeout, "bundle": list(order),
                             "arrive": {k: (50 if k in order else "never") for k in KINDS}, "forced": None, "extra": False})
+            # ... and late: after the lookup's last query, when nothing but the deadline is left to wake it
+            for timeout, at in ((200, 100), (1000, 600), (1000, 990), (3000, 2800), (3000, 1500)):
+                pts.append({"cache": {k: "absent" for k in KINDS}, "timeout": timeout, "bundle": list(order), "bundle_at": at,
+                            "arrive": {k: (at if k in order else "never") for k in KINDS}, "forced": None, "extra": False})
     # the only cached address runs out while the lookup is still waiting for the SRV record that would make it usable
     for life in (100, 240, 750, 1500):
         for srv_at in (50, 230, 500, 1000, 2000):
@@ -233,7 +237,7 @@ def _run_point(p: Dict[str, Any], verbose: bool = False) -> Tuple[Optional[Dict[
             if st[k] == "expired" and not any(r.is_expired(w.now_ms) for r in zc.cache.entries_with_name(OLD[k][1])):
                 raise HarnessError("expired-unpurged state not established")
         if p.get("bundle"):
-            w.loop.call_at((t0 + 50) / 1000, w.net.inject, host, wire.encode(99, 0x8400, (), [GOOD[k] for k in p["bundle"]]),
+            w.loop.call_at((t0 + p.get("bundle_at", 50)) / 1000, w.net.inject, host, wire.encode(99, 0x8400, (), [GOOD[k] for k in p["bundle"]]),
                            ("10.0.0.50", 5353))
         for k, off in arrive.items():
             if p.get("bundle"):
